@@ -114,6 +114,31 @@ def rule_lib_pitfall(ctx, prefix, fi):
         if any(k.arg == "mode" and isinstance(k.value, ast.Constant) and k.value.value in ("wrap", "clip") for k in n.keywords) \
                 and f.split(".")[-1] in ("take", "put", "ravel_multi_index", "choose"):
             bad.append((n, f"`{norm(n)[:70]}` maps out-of-range indices onto valid ones instead of raising"))
+    # bounded line reads: readline(n) returns at most n characters — a FAB header or a header line longer than n (large
+    # indices, many digits) is cut in the middle and the rest is read as the next line / as data
+    for n in walk_no_nested(fi.node):
+        if isinstance(n, ast.Call) and isinstance(n.func, ast.Attribute) and n.func.attr in ("readline", "readlines") and \
+                (n.args or n.keywords) and not (n.args and isinstance(n.args[0], ast.Constant) and n.args[0].value in (-1, None)):
+            bad.append((n, f"`{norm(n)[:60]}` limits the line to a fixed number of characters: a longer line (a FAB header "
+                           f"with many-digit indices or field count) is cut and mis-parsed"))
+    # negative-zero slices: x[-n:] is "the last n" only for n > 0; for n == 0 it is the whole sequence (and x[:-n] is
+    # empty): a remainder / difference that can be zero needs a guard
+    par = {id(c): p for p in ast.walk(fi.node) for c in ast.iter_child_nodes(p)}
+    for n in walk_no_nested(fi.node):
+        if not (isinstance(n, ast.Subscript) and isinstance(n.slice, ast.Slice)):
+            continue
+        for bound, which in ((n.slice.lower, "lower"), (n.slice.upper, "upper")):
+            if isinstance(bound, ast.UnaryOp) and isinstance(bound.op, ast.USub) and not isinstance(bound.operand, ast.Constant):
+                v = norm(bound.operand)
+                guarded, cur = False, n
+                while id(cur) in par:
+                    cur = par[id(cur)]
+                    if isinstance(cur, (ast.If, ast.IfExp, ast.While)) and v in norm(cur.test):
+                        guarded = True
+                if not guarded:
+                    bad.append((n, f"`{norm(n)[:60]}` counts from the end by `{v}`, which can be 0: then the slice is "
+                                   + ("the whole sequence, not the empty tail" if which == "lower" else
+                                      "empty, not the whole sequence") + " (no guard on the zero case)"))
     # narrow numeric containers: byte offsets reach and pass 2**31 in production files, header numbers and box data
     # are float64 on disk; a 32-bit (or smaller) dtype literal wraps / overflows the first and rounds the second
     NARROW = {"int32", "int16", "int8", "uint32", "uint16", "uint8", "float32", "float16", "single", "half", "intc",
@@ -189,6 +214,42 @@ def rule_unbound(ctx, prefix, fi):
                         f"hierarchy (AttributeError when reached)", key=f"self.{n.attr}", where=loc(fi, n), semantic=True)
 
 
+def rule_negative_wrap(ctx, prefix, fi):
+    """NEG-WRAP: `if k < 0: k += E` turns a negative index into a position counted from the end only when E is the
+    *number of entries* of what k indexes; the index of the last entry (a maximum, `x[-1]`, `len(x) - 1`, the finest
+    level number) is one short: -1 then selects the entry before the last one and -n stays negative"""
+    import ast
+    from .model import norm, walk_no_nested, loc
+    for n in walk_no_nested(fi.node):
+        if not isinstance(n, ast.If):
+            continue
+        neg = None
+        for c in ast.walk(n.test):
+            if isinstance(c, ast.Compare) and len(c.ops) == 1 and isinstance(c.ops[0], ast.Lt) and \
+                    isinstance(c.comparators[0], ast.Constant) and c.comparators[0].value == 0 and \
+                    isinstance(c.left, (ast.Name, ast.Attribute)):
+                neg = norm(c.left)
+        if neg is None:
+            continue
+        for b in n.body:
+            if isinstance(b, ast.AugAssign) and isinstance(b.op, ast.Add) and norm(b.target) == neg:
+                e = norm(b.value)
+            elif isinstance(b, ast.Assign) and norm(b.targets[0]) == neg and isinstance(b.value, ast.BinOp) and \
+                    isinstance(b.value.op, ast.Add) and neg in (norm(b.value.left), norm(b.value.right)):
+                e = norm(b.value.right) if norm(b.value.left) == neg else norm(b.value.left)
+            else:
+                continue
+            import re
+            count = bool(re.fullmatch(r"len\(.+\)|.+\.size|.+\.shape\[\d+\]|(self\.)?(limit_level|max_level) \+ 1|"
+                                      r"1 \+ (self\.)?(limit_level|max_level)|(self\.)?(nfields|nvars|ndims|nfidxs|size)", e))
+            last = bool(re.fullmatch(r"max\(.+\)|np\.max\(.+\)|.+\[-1\]|len\(.+\) - 1|(self\.)?(limit_level|max_level)", e))
+            ctx.decide(count, last, f"{prefix}.NEG-WRAP", fi.site,
+                       f"negative `{neg}` is wrapped by the number of entries ({e})",
+                       f"`if {norm(n.test)}: {neg} += {e}` wraps a negative index by the index of the *last* entry, not by "
+                       f"the number of entries: {neg} = -1 selects the entry before the last one, and the most negative "
+                       f"legal value stays negative", key=f"negwrap:{neg}", where=loc(fi, b))
+
+
 def sweep(ctx):
     if ctx.prop in NO_SWEEP:
         return
@@ -200,4 +261,5 @@ def sweep(ctx):
         rule_level_table(ctx, ctx.prop, fi)
         rule_lib_pitfall(ctx, ctx.prop, fi)
         rule_unbound(ctx, ctx.prop, fi)
-    ctx.note("generic_lints", {"functions": len(fns), "lints": ["LOOP-STATE", "LEVEL-TABLE", "LIB-PITFALL", "U1", "U2"]})
+        rule_negative_wrap(ctx, ctx.prop, fi)
+    ctx.note("generic_lints", {"functions": len(fns), "lints": ["LOOP-STATE", "LEVEL-TABLE", "LIB-PITFALL", "U1", "U2", "NEG-WRAP"]})
